@@ -17,7 +17,7 @@ ID = 'C15'
 LEVEL = 'exploration'
 RUN_TIMEOUT = 60.0
 CHUNK = 100
-TIERS = {'quick': dict(runs=60000, budget_s=70), 'thorough': dict(runs=2500000, budget_s=1500)}
+TIERS = {'quick': dict(runs=60000, budget_s=240), 'thorough': dict(runs=2500000, budget_s=1500)}
 REAL = ['prettyprinter/* (tree under check)', 'functools.singledispatch']
 STUBS = ['harness class lattice; printers that return a unique tag; isinstance predicates']
 ASSUMPTIONS = [
